@@ -23,10 +23,11 @@ VALID = {
     'never': lambda x: False,
     'even': lambda x: sum(1 for v in x.values() if v in (1,)) % 2 == 0,
     'differ': lambda x: len(x) < 2 or list(x.values())[0] != list(x.values())[1],
+    'first_set': None,
 }
 
 
-def make_bf(ctx, src, fn, n, U, allsol, valid, B=0, method=False, stale=False):
+def make_bf(ctx, src, fn, n, U, allsol, valid, B=0, method=False, stale=False, big=0):
     import qubovert.utils as qu
     TY = O.types()
     T = TY[src]
@@ -34,7 +35,11 @@ def make_bf(ctx, src, fn, n, U, allsol, valid, B=0, method=False, stale=False):
     labs = list(range(n)) if src in O.MATRIX_TYPES else O.LABEL_POOL[:n]
     keys = [tuple(labs[i] for i in k) for k in U]
     cs = {k: (ctx.int_var('c%d' % i, -B, B) if B else ctx.real_var('c%d' % i)) for i, k in enumerate(keys)}
+    if big and () in cs:
+        cs[()] = cs[()] + big          # a large constant next to small coefficients (relative differences ~1e-10)
     vfn = VALID[valid]
+    if valid == 'first_set':
+        vfn = lambda x: (x[labs[0]] == (-1 if spin else 1)) if labs[0] in x else True     # noqa  (not symmetric under flipping every variable)
     if valid == 'differ':
         vfn = lambda x: (x[labs[0]] != x[labs[1]]) if (labs[0] in x and labs[1] in x) else True     # noqa
     f = getattr(qu, fn)
@@ -103,10 +108,10 @@ def make_bf(ctx, src, fn, n, U, allsol, valid, B=0, method=False, stale=False):
 
 def jobs(tier, seed):
     J = []
-    def add(src, fn, n, U, allsol, valid, B=0, method=False, stale=False, budget=300):
-        name = '%s/%s/n%d/U%d/all=%d/valid=%s%s%s' % (src, 'method' if method else fn, n, len(U), allsol, valid, '/B%d' % B if B else '', '/stale' if stale else '')
+    def add(src, fn, n, U, allsol, valid, B=0, method=False, stale=False, budget=300, big=0):
+        name = '%s/%s/n%d/U%d/all=%d/valid=%s%s%s%s' % (src, 'method' if method else fn, n, len(U), allsol, valid, '/B%d' % B if B else '', '/stale' if stale else '', '/big' if big else '')
         J.append(dict(name=name, sig=name, module='vq.props.c09', make='make_bf',
-                      args=dict(src=src, fn=fn, n=n, U=[list(k) for k in U], allsol=allsol, valid=valid, B=B, method=method, stale=stale),
+                      args=dict(src=src, fn=fn, n=n, U=[list(k) for k in U], allsol=allsol, valid=valid, B=B, method=method, stale=stale, big=big),
                       budget_s=budget if tier == 'quick' else 1800))
     d2 = [k for d in range(3) for k in itertools.combinations(range(2), d)]
     d3q = [(), (0,), (1,), (2,), (0, 1), (1, 2)]
@@ -122,6 +127,10 @@ def jobs(tier, seed):
             add(src, fn, 3, U3 if tier == 'quick' else ([k for d in range(4 if (deg3 and src not in O.DEG2_TYPES) else 3) for k in itertools.combinations(range(3), d)]),
                 False, 'always')
             add(src, fn, 2, d2, True, 'always', B=1 if tier == 'quick' else 2)
+            if src in ('dict', srcs[1]):
+                add(src, fn, 2, d2, True, 'always', B=1, big=10 ** 10)
+                add(src, fn, 2, d2, False, 'first_set')
+                add(src, fn, 3, [(0, 1), (1, 2), (0, 2)] if not deg3 else [(0, 1), (1, 2), (0, 1, 2, 0)][:2] + [(0, 2)], False, 'first_set')
             add(src, fn, 2, d2, True, 'even', B=1)
             if tier != 'quick' or src in ('dict', srcs[1]):
                 add(src, fn, 3, U3[1:], True, 'differ', B=1)
